@@ -2836,11 +2836,18 @@ class LinearOperator(object):
         squeeze_row = False
         squeeze_col = False
         if isinstance(row_index, int):
-            row_index = slice(row_index, row_index + 1 if row_index != -1 else None, None)
-            squeeze_row = True
+            if row_col_are_absorbed:
+                # Next to tensor indices, an integer acts as a zero-dimensional tensor index
+                row_index = torch.tensor(row_index + self.size(-2) if row_index < 0 else row_index, device=self.device)
+            else:
+                row_index = slice(row_index, row_index + 1 if row_index != -1 else None, None)
+                squeeze_row = True
         if isinstance(col_index, int):
-            col_index = slice(col_index, col_index + 1 if col_index != -1 else None, None)
-            squeeze_col = True
+            if row_col_are_absorbed:
+                col_index = torch.tensor(col_index + self.size(-1) if col_index < 0 else col_index, device=self.device)
+            else:
+                col_index = slice(col_index, col_index + 1 if col_index != -1 else None, None)
+                squeeze_col = True
 
         # Call self._getitem - now that the index has been processed
         # Alternatively, if we're using tensor indices and losing dimensions, use self._get_indices
